@@ -1,11 +1,15 @@
 import CapyV.Driver.C25
 import CapyV.Driver.C17
+import CapyV.Driver.C03
+import CapyV.Driver.C27
 open CapyV.Driver
 
 def dispatch (line : String) : String :=
   match words line with
   | "C25" :: args => c25 args
   | "C17" :: args => c17 args
+  | "C03" :: args => c03 args
+  | "C27" :: args => c27 args
   | _ => "bad-op"
 
 partial def loop (h : IO.FS.Stream) (out : IO.FS.Stream) : IO Unit := do
